@@ -420,7 +420,7 @@ fn run_real_payload(o: &mut Out, rng: &mut Rng, max_needles: usize) {
             let mut crits = vec![PayCrit { k: "sub".into(), cls: "".into(), w: w.clone(), w2: vec![], ic: false },
                                  PayCrit { k: "sub".into(), cls: "".into(), w: w.clone(), w2: vec![], ic: true }];
             if safe {
-                let cls = *rng.pick(&["contains", "prefix", "suffix"]);
+                let cls = *rng.pick(&["contains", "prefix", "suffix", "flagged", "named"]);
                 crits.push(PayCrit { k: "re".into(), cls: cls.into(), w: w.clone(), w2: vec![], ic: rng.chance(1, 2) });
             }
             for pc in crits {
